@@ -401,7 +401,7 @@ def run(ctx):
     asyncio.set_event_loop(loop)
     try:
         l0, r0 = explore_sync(ctx, corpus_cases(), loop, label="corpus: ")
-        n = 20000 if ctx.thorough() else 3000
+        n = 80000 if ctx.thorough() else 3000
         cases = [(gen_sync(rng), "syncfunction" if rng.random() < 0.2 else "await_sync") for _ in range(n)]
         l1, r1 = explore_sync(ctx, cases, loop)
         for c in cases[:3]:
